@@ -88,6 +88,7 @@ def gen(rng, knobs):
             script.insert(rng.randint(1, len(script)), ["disconnect"])
         clients.append({"script": script, "slow": rng.random() < 0.25})
     return {"backend": backend, "clients": clients, "preload": pre, "subscription_limit": limit,
+            "p_buffered": rng.choice([0.0, 0.0, 0.3, 0.8]),
             "sched": {"client": rng.choice([0.5, 1.0, 3.0]), "sql": rng.choice([0.3, 1.0, 3.0]),
                       "pool": rng.choice([0.3, 1.0, 3.0]), "writer": rng.choice([0.2, 1.0, 3.0]),
                       "wsend": rng.choice([0.2, 1.0]), "ready": rng.choice([1.0, 4.0, 8.0])}}
@@ -299,7 +300,7 @@ def check_client(c, world, case, ev_times, ev_done, submissions, quiet_points, v
 def run(case, sim):
     backend = case["backend"]
     w = relay.RelayWorld(sim, backend, case["clients"], cfg={"subscription_limit": case["subscription_limit"]},
-                         preload=case.get("preload"))
+                         preload=case.get("preload"), p_buffered=case.get("p_buffered", 0.0))
     viol = []
     probes = collections.Counter()
     quiet_points = []
